@@ -342,12 +342,19 @@ Helper lemmas: `Xsm/Proofs/Agree.lean`. The two engines are ONE set of definitio
   (`StartTag`), and user code that looks at the event name could tell them apart (`StartBlind` excludes it).
 * **coroutine actions** — refused by the sync engine (`NotSupportedError`; inside a `choose` branch the
   refusal is even contained and only logged), awaited by the async one: `NoCoroutine` excludes them.
-* **what happens at the bound and on failure** — the sync drain discards what is queued after
-  `maxIterations` dequeued events, the async breaker purges the chain once MORE than `maxIterations`
-  self-sent events were counted; a failing macrostep aborts the sync drain (the rest stays queued, the error
+* **what happens at the bound and on failure** — the sync drain discards what is queued once it has
+  dequeued `maxIterations` events MORE than were queued when it started (`drainBudget`; the events queued at
+  the start — the one just sent, what `start()` queued — do not count: repair of F10), the async breaker
+  purges the chain once MORE than `maxIterations` self-sent events were counted; a failing macrostep aborts the sync drain (the rest stays queued, the error
   is raised) while the async loop logs it and goes on. So agreement is claimed for runs in which neither
   bound is reached (`sendTrips … = 0`, `sendCut … = false`; `CutFree`) and the sync engine raises nothing
   (`(syncSend …).err = none`; `NoFail`) — by `Sim.err` the async engine then logs nothing either.
+* **the fuel of the async MODEL** — `asyncDrain` recurses on a fuel constant the code does not have (status
+  "HANG" when it runs out, C13 §3). A sync drain may now legitimately run longer than that constant (its
+  budget grows with the number of events queued at its start), so wherever the queue at the start of the
+  drain is not known to be empty the statements assume the model's fuel does not run out
+  (`… .status ≠ "HANG"`: `send_agree_from`, `start_agree`, last clause of `CutFree`); from an idle state
+  (`send_agree`, every command of a whole run) and under `ShortChains` this is proved, not assumed.
 
 All side conditions are decidable predicates over the run; `ShortChains` ("fewer than `maxIterations` events
 sent to itself per command") implies `CutFree` (`send_bounds_of_short_chain`, `run_agree_of_short_chains`). -/
@@ -419,13 +426,15 @@ theorem hooks_simulation (u : UEnv) (m : Machine) (hu : NoCoroutine u) (hA : Hoo
 
 /-- **(2, two states) one `send`.** From `Agrees`-related states (an async one and a sync one — e.g. the
     states two whole runs are in), if the async breaker does not trip while the event is digested, the sync
-    drain does not exhaust its budget with events still queued, and the sync `send` raises nothing, the
-    states after the `send` are `Agrees`-related again. -/
+    drain does not exhaust its budget with events still queued, the sync `send` raises nothing, and the async
+    MODEL's fuel does not run out (`hh`; the queues of `a` / `b` are arbitrary here, and the sync drain
+    processes all of it), the states after the `send` are `Agrees`-related again. -/
 theorem send_agree_from (m : Machine) (u : UEnv) (hu : NoCoroutine u) (T : List String → List String → Prop)
     (hT : ∀ r l1 l2, T l1 l2 → T (r :: l1) (r :: l2)) (e : Ev) {a b : St} (hs : Agrees T a b)
+    (hh : (asyncSend m u e a).status ≠ "HANG")
     (ht : sendTrips m u e a = 0) (hc : sendCut m u e b = false) (he : (syncSend m u e b).err = none) :
     Agrees T (asyncSend m u e a) (syncSend m u e b) :=
-  send_sim hT hu e hs ht hc he
+  send_sim hT hu e hs hh ht hc he
 
 /-- **(2) `send_agree`.** For an idle running state `s` (nothing queued, counter 0): if the breaker does not
     trip during `asyncSend m u e s`, the drain of `syncSend m u e s` does not exhaust its budget, and the sync
@@ -444,7 +453,7 @@ theorem send_agree (m : Machine) (u : UEnv) (hu : NoCoroutine u) (e : Ev) (s : S
       eraseQ (asyncSend m u e s) = eraseQ (syncSend m u e s) ∧
       (asyncSend m u e s).queue = [] ∧ (asyncSend m u e s).raiseDepth = 0) := by
   have hA : Agrees Eq (asyncSend m u e s) (syncSend m u e s) :=
-    send_sim (fun _ _ _ h => by rw [h]) hu e (Sim.refl (fun _ => rfl) s).agree ht hc he
+    send_sim_idle (fun _ _ _ h => by rw [h]) hu e (Sim.refl (fun _ => rfl) s).agree (fun _ => hq) ht hc he
   refine ⟨(agree_eq_iff _ _).1 hA, syncSend_queue_nil e (fun _ => hq) he, fun hra => ?_⟩
   obtain ⟨q1, q2⟩ := asyncSend_quiet m u e s (fun _ => ⟨hq, hd⟩) hra
   exact ⟨(sim_eq_iff _ _).1 (hA.sim hra), q1, q2⟩
@@ -452,7 +461,8 @@ theorem send_agree (m : Machine) (u : UEnv) (hu : NoCoroutine u) (e : Ev) (s : S
 /-- **(2, usable form) short chains reach neither bound.** For an idle state: if the machine sends itself
     fewer than `maxIterations` events while `e` is digested (`asyncSelfSends`: every `raise` and every
     `done.state.*` delivered while the async loop is processing, over the whole chain), the breaker does not
-    trip and the sync budget (which also counts `e` itself) is not exhausted. -/
+    trip and the sync budget (`maxIterations` + 1: `e` itself, queued when the drain starts, does not count)
+    is not exhausted. -/
 theorem send_bounds_of_short_chain (m : Machine) (u : UEnv) (hu : NoCoroutine u) (e : Ev) (s : St)
     (hq : s.queue = []) (hd : s.raiseDepth = 0)
     (hshort : asyncSelfSends m u (asyncFuel m) (pushExt e s) < m.maxIterations) :
@@ -461,34 +471,42 @@ theorem send_bounds_of_short_chain (m : Machine) (u : UEnv) (hu : NoCoroutine u)
     (fun _ => ⟨hq, hd⟩) (fun _ => hshort)
 
 /-- **(3) `start_agree`.** `start()` from any state `s`: if the breaker does not trip while the async loop
-    digests what the initial entry and settling queued, the sync drain does not exhaust its budget on it, and
-    the sync `start()` raises nothing, both engines end with the same configuration, history, context, status,
+    digests what the initial entry and settling queued, the sync drain does not exhaust its budget on it
+    (`drainBudget`: `maxIterations` + the number of events so queued), the async MODEL's fuel does not run out
+    (`hh`) and the sync `start()` raises nothing, both engines end with the same configuration, history, context, status,
     error flag, (live) queue — and traces that agree record by record up to the start tag (`StartTag`: equal,
     or the same action tagged `___xstate_statemachine_init___` by the async engine and `entry.<state id>` by
     the sync engine). The sync queue is empty; a running async interpreter is idle. -/
 theorem start_agree (m : Machine) (u : UEnv) (hu : NoCoroutine u) (hb : StartBlind m u) (s : St)
+    (hh : (asyncStart m u s).status ≠ "HANG")
     (ht : asyncTrips m u (asyncFuel m) (asyncStartSettled m u s) = 0)
-    (hc : drainCut m u m.maxIterations (syncStartSettled m u s) = false)
+    (hc : drainCut m u (drainBudget m (syncStartSettled m u s)) (syncStartSettled m u s) = false)
     (he : (syncStart m u s).err = none) :
     Agrees (TrRel (StartTag m)) (asyncStart m u s) (syncStart m u s) ∧
     (syncStart m u s).queue = [] ∧
     (s.raiseDepth = 0 → (asyncStart m u s).status = "running" →
       (asyncStart m u s).queue = [] ∧ (asyncStart m u s).raiseDepth = 0) :=
-  ⟨start_sim hu hb (Sim.refl (trRel_refl_startTag m) s) ht hc he, syncStart_queue_nil s he,
+  ⟨start_sim hu hb (Sim.refl (trRel_refl_startTag m) s) hh ht hc he, syncStart_queue_nil s he,
    fun hd hr => asyncStart_quiet m u s hd hr⟩
 
-/-- **(3, usable form)** what `start()` queues plus what the machine then sends itself fits `maxIterations` -/
+/-- **(3, usable form)** what `start()` queues plus what the machine then sends itself fits `maxIterations`:
+    neither bound is reached, and (if the sync `start()` raises nothing) the async model's fuel does not run
+    out — all the hypotheses of `start_agree` -/
 theorem start_bounds_of_short_chain (m : Machine) (u : UEnv) (hu : NoCoroutine u) (hb : StartBlind m u) (s : St)
     (hd : s.raiseDepth = 0)
     (hshort : (asyncStartSettled m u s).queue.length +
       asyncSelfSends m u (asyncFuel m) (asyncStartSettled m u s) ≤ m.maxIterations) :
     asyncTrips m u (asyncFuel m) (asyncStartSettled m u s) = 0 ∧
-    drainCut m u m.maxIterations (syncStartSettled m u s) = false :=
-  start_cutFree_of_short hu hb (Sim.refl (trRel_refl_startTag m) s) hd hshort
+    drainCut m u (drainBudget m (syncStartSettled m u s)) (syncStartSettled m u s) = false ∧
+    ((syncStart m u s).err = none → (asyncStart m u s).status ≠ "HANG") :=
+  ⟨(start_cutFree_of_short hu hb (Sim.refl (trRel_refl_startTag m) s) hd hshort).1,
+   (start_cutFree_of_short hu hb (Sim.refl (trRel_refl_startTag m) s) hd hshort).2,
+   start_noHang_of_short hu hb (Sim.refl (trRel_refl_startTag m) s) hd hshort⟩
 
 /-- **(4) `run_agree`: whole runs.** `start()`, then the events of `evs` sent one by one (each once the
     previous one is digested; `cmd`: the command clears the error flag of the previous one). If neither bound
-    is reached at any step (`CutFree`, decidable) and the sync engine raises at no step (`NoFail`, decidable),
+    is reached at any step (`CutFree`, decidable; it also says that the async MODEL's fuel constant suffices
+    for `start()`) and the sync engine raises at no step (`NoFail`, decidable),
     then after `start()` the engines agree up to the start tag, and after EVERY prefix of `evs` they have the
     same configuration, history, context, status, error flag (none) and live queue (empty), and their traces
     are the traces of `start()` with the SAME new records on top (`SplitAt`). The idleness `send_agree` needs
@@ -601,14 +619,16 @@ example : (asyncStart wM XSM.Term.Ex.u0 {}).trace =
 
 /-- **the side condition is necessary.** `burstM` (C13; bound 3): `E` raises `R` four times in one step. No
     command fails, but `CutFree` does not hold — the async breaker trips on the first `R` and purges all four,
-    the sync drain processes two of them before its budget is exhausted — and the runs differ. -/
+    the sync drain (budget 3 + 1: `E` itself does not count) processes three of them before its budget is
+    exhausted — and the runs differ. -/
 example : NoFail XSM.Term.Ex.burstM XSM.Term.Ex.u0 [.user "E"] ∧ ¬ CutFree XSM.Term.Ex.burstM XSM.Term.Ex.u0 [.user "E"] ∧
     sendTrips XSM.Term.Ex.burstM XSM.Term.Ex.u0 (.user "E") (asyncStart XSM.Term.Ex.burstM XSM.Term.Ex.u0 {}) = 1 ∧
     sendCut XSM.Term.Ex.burstM XSM.Term.Ex.u0 (.user "E") (syncStart XSM.Term.Ex.burstM XSM.Term.Ex.u0 {}) = true := by
   decide +kernel
 example : (runA XSM.Term.Ex.burstM XSM.Term.Ex.u0 [.user "E"]).trace = ["#t:m,m.a", "#recv:E"] ∧
     (runS XSM.Term.Ex.burstM XSM.Term.Ex.u0 [.user "E"]).trace =
-      ["#t:m,m.a", "sawR@R", "#recv:R", "#t:m,m.a", "sawR@R", "#recv:R", "#t:m,m.a", "#recv:E"] := by decide +kernel
+      ["#t:m,m.a", "sawR@R", "#recv:R", "#t:m,m.a", "sawR@R", "#recv:R", "#t:m,m.a", "sawR@R", "#recv:R",
+       "#t:m,m.a", "#recv:E"] := by decide +kernel
 
 /-- **`StartBlind` is necessary.** `en:P` looks at the event name it is handed and sets `x` under the async
     engine's init event only: neither bound is reached, nothing fails, and yet `start()` leaves different
